@@ -19,6 +19,7 @@ import threading
 import types
 
 import common as C
+import re_probes as RP
 import engine_extract
 
 MANIFEST = {
@@ -630,6 +631,7 @@ def run(ctx, model=True):
             res.samples.append({"case": cases[i], "impl": _canon(obss[i]), "model": json.loads(replies[i])})
     else:
         res.samples.append({"case": cases[-1], "impl": obss[-1]})
+    RP.add_to(res, ["busy-loop-trip"])
     return res
 
 
@@ -638,6 +640,9 @@ def run_impl_only(ctx):
 
 
 def replay(ctx, data):
+    r = RP.replay(data)
+    if r is not None:
+        return r
     res = C.Result()
     case = data.get("case")
     if not case:
